@@ -31,7 +31,7 @@ CHECKS = {
    note="trusted: the admission model (from the property text), recorder stubs for liveness / peer API / detector; messages whose completeness the property leaves open are not generated; repeats of rejected messages are don't-cares",
    tech=TECH + " (decision table through the simulated environment: liveness verdicts, peer delivery, duplicates; executable model as oracle)"),
  "C08": dict(cat="exploration", ref="5 C08",
-   text="all histories up to length 4 (thorough 6, bounded per root) over an 11-operation alphabet are enumerated and long random histories sampled against the real registry under the simulated clock, compared after every step with an expiry reference model; one operation is a sweep raced by a connection handler (lookup, then activation) as two tasks whose interleaving at the registry's lock operations the tape decides (systematic part: at most 2 preemptions per history)",
+   text="all histories up to length 3 (thorough 6, bounded per root) over a 12-operation alphabet are enumerated and long random histories sampled against the real registry under the simulated clock, compared after every step with an expiry reference model; two operations are a sweep raced by a connection handler (lookup, then activation) and a sweep raced by a re-registration, each as two tasks whose interleaving at the registry's lock operations the tape decides (systematic part: at most 2 preemptions per history)",
    note="trusted: synctest fake clock; the reference model (30 lines) written from the property text; ages within 1 ms of a threshold are don't-cares; for a registration that is about to expire while a connection arrives either outcome of the race is accepted (removed entirely, or kept as used)",
    tech=TECH + " (simulated clock, history enumeration + seeded search, reference model)"),
  "C14": dict(cat="exploration", ref="5 C14",
